@@ -5,6 +5,8 @@ import (
 	"fmt"
 	"math/big"
 	"runtime"
+	"runtime/debug"
+	"strings"
 	"sync"
 	"sync/atomic"
 
@@ -414,72 +416,105 @@ func runOwnership(r *mon.Run, id string) {
 // first caller - and handed to a concurrent first caller as the published object itself rather than
 // as a copy - is wrong only from the moment that caller writes to "its" slice.
 func init() {
-	prev := registry["C18"].Run
-	registry["C18"].Run = func(r *mon.Run) {
-		prev(r)
-		if isYield(r) {
-			return
+	for _, id := range []string{"C05", "C07", "C08", "C10", "C11", "C13", "C14", "C18"} {
+		id := id
+		prev := registry[id].Run
+		registry[id].Run = func(r *mon.Run) {
+			prev(r)
+			if isYield(r) {
+				return
+			}
+			if id == "C18" {
+				runConcurrentFirstUse(r, "c18", r.N(700, 8000), nCheapAccessors)
+			} else {
+				// the other properties that are about key objects: every accessor AND every operation
+				runConcurrentFirstUse(r, strings.ToLower(id), r.N(250, 3000), 1<<30)
+			}
 		}
-		r.Require("c18:concurrent-first-use:rounds")
-		G := 8
-		r.Seq("c18/concurrent-first-use", 1, func(w *mon.W, _ int) {
-			rounds := r.N(700, 8000)
-			for round := 0; round < rounds; round++ {
-				acc := freshAccessors(r.Seed, round, 1000)
-				ref := freshAccessors(r.Seed, round, 1000)
-				// the expensive operations are at the end of the list; the accessors are what this is about
-				nAcc := 18
-				outs := make([][][]byte, G)
-				var ready, goFlag atomic.Int32
-				var wg sync.WaitGroup
-				for g := 0; g < G; g++ {
-					wg.Add(1)
-					go func(g int) {
-						defer wg.Done()
-						my := make([][]byte, nAcc)
-						ready.Add(1)
-						for goFlag.Load() == 0 {
-							runtime.Gosched()
-						}
-						for j := 0; j < nAcc; j++ {
-							k := j
-							if round%2 == 1 {
-								k = (j + g) % nAcc
-							}
-							my[k] = acc[k]()
-						}
+	}
+}
+
+func runConcurrentFirstUse(r *mon.Run, lc string, rounds int, nAcc int) {
+	r.Require(lc + ":concurrent-first-use:rounds")
+	G := 8
+	r.Seq(lc+"/concurrent-first-use", 1, func(w *mon.W, _ int) {
+		for round := 0; round < rounds; round++ {
+			acc := freshAccessors(r.Seed, round, 1000)
+			ref := freshAccessors(r.Seed, round, 1000)
+			nAcc := nAcc
+			if nAcc > len(acc) {
+				nAcc = len(acc)
+			}
+			outs := make([][][]byte, G)
+			pans := make([]any, G)
+			stacks := make([]string, G)
+			var ready, goFlag atomic.Int32
+			var wg sync.WaitGroup
+			for g := 0; g < G; g++ {
+				wg.Add(1)
+				go func(g int) {
+					defer wg.Done()
+					my := make([][]byte, nAcc)
+					defer func() {
 						outs[g] = my
-					}(g)
-				}
-				for ready.Load() < int32(G) {
-					runtime.Gosched()
-				}
-				goFlag.Store(1)
-				wg.Wait()
-				wants := make([][]byte, nAcc)
-				for k := 0; k < nAcc; k++ {
-					wants[k] = ref[k]()
-					for g := 0; g < G; g++ {
-						if !bytes.Equal(outs[g][k], wants[k]) {
-							w.Fail("c18/concurrent-first-use:result", fmt.Sprintf("round %d, goroutine %d: accessor #%d as one of %d simultaneous FIRST calls on fresh objects returned %x, alone it returns %x", round, g, k, G, outs[g][k], wants[k]))
-							return
+						if e := recover(); e != nil {
+							pans[g] = e
+							stacks[g] = string(debug.Stack())
 						}
+					}()
+					ready.Add(1)
+					for goFlag.Load() == 0 {
+						runtime.Gosched()
 					}
+					for j := 0; j < nAcc; j++ {
+						// even rounds: all goroutines start at the SAME accessor (another one every round) and
+						// go on in step; odd rounds: every goroutine starts somewhere else
+						k := (j + round/2) % nAcc
+						if round%2 == 1 {
+							k = (j + g*3 + round) % nAcc
+						}
+						my[k] = acc[k]()
+					}
+				}(g)
+			}
+			for ready.Load() < int32(G) {
+				runtime.Gosched()
+			}
+			goFlag.Store(1)
+			wg.Wait()
+			for g := 0; g < G; g++ {
+				if pans[g] != nil {
+					if mon.PanicInHarness(stacks[g]) {
+						r.Inconclusive("harness panic in the concurrent first-use monitor: %v", pans[g])
+						return
+					}
+					w.Fail(lc+"/concurrent-first-use:panic", fmt.Sprintf("round %d, goroutine %d: one of %d simultaneous FIRST calls on fresh objects panicked: %v", round, g, G, pans[g]))
+					return
 				}
+			}
+			wants := make([][]byte, nAcc)
+			for k := 0; k < nAcc; k++ {
+				wants[k] = ref[k]()
 				for g := 0; g < G; g++ {
-					for k := range outs[g] {
-						wreckBytes(outs[g][k])
-					}
-				}
-				for k := 0; k < nAcc; k++ {
-					if got := acc[k](); !bytes.Equal(got, wants[k]) {
-						w.Fail("c18/concurrent-first-use:after-callers-overwrote-results", fmt.Sprintf("round %d: accessor #%d returns %x after the goroutines that made the %d simultaneous FIRST calls overwrote the slices they were given; expected %x", round, k, got, G, wants[k]))
+					if !bytes.Equal(outs[g][k], wants[k]) {
+						w.Fail(lc+"/concurrent-first-use:result", fmt.Sprintf("round %d, goroutine %d: accessor #%d as one of %d simultaneous FIRST calls on fresh objects returned %x, alone it returns %x", round, g, k, G, outs[g][k], wants[k]))
 						return
 					}
 				}
 			}
-			w.ClassN("c18:concurrent-first-use:rounds", int64(rounds))
-			w.Case(true, []byte("concurrent-first-use"))
-		})
-	}
+			for g := 0; g < G; g++ {
+				for k := range outs[g] {
+					wreckBytes(outs[g][k])
+				}
+			}
+			for k := 0; k < nAcc; k++ {
+				if got := acc[k](); !bytes.Equal(got, wants[k]) {
+					w.Fail(lc+"/concurrent-first-use:after-callers-overwrote-results", fmt.Sprintf("round %d: accessor #%d returns %x after the goroutines that made the %d simultaneous FIRST calls overwrote the slices they were given; expected %x", round, k, got, G, wants[k]))
+					return
+				}
+			}
+		}
+		w.ClassN(lc+":concurrent-first-use:rounds", int64(rounds))
+		w.Case(true, []byte("concurrent-first-use"))
+	})
 }
